@@ -56,7 +56,7 @@ OBLIGATIONS = [
 
 SRC_OBLIGATIONS = [
     # source-level tie (Api/SrcProg*.v): the programs regenerated from today's source denote the scripts above
-    "C13_src_estimate_pure", "C13_src_examples",
+    "C13_src_estimate_pure", "C13_src_mcmc_call_clean", "C13_src_scipy_call_pure", "C13_src_settings_copied", "C13_src_examples",
 ]
 OBLIGATIONS += SRC_OBLIGATIONS
 
@@ -895,6 +895,53 @@ def model_groups(model, var_ix):
                 hyper=[var_ix[n] for n in model.hyperparameters_names])
 
 
+def cut_mcmc(t, g, var_ix):
+    """Instance parts of a recorded MCMC personalisation that the program leaves open: what the initialisation functions read,
+    the sampler activity (everything between the initial values and the first clone), the keys assigned on the last clone.
+    A wrong cut is harmless: Coq re-derives the script from the program and compares it with the WHOLE trace."""
+    pos = 3 + 1 + len(g["obs"])
+    reads = {}
+    for n in g["ind"]:
+        r = []
+        while pos < len(t) and not (t[pos][0] in (1, 2) and t[pos][1] == 0 and t[pos][2] == n):
+            if t[pos][0] == 3:
+                break
+            r.append(t[pos][2])
+            pos += 1
+        reads[n] = r
+        pos += 1
+    end = next((i for i in range(pos, len(t)) if t[i][0] == 3), len(t))
+    work = t[pos:end]
+    last = max((i for i, e in enumerate(t) if e[0] == 3), default=len(t))
+    keys = [e[2] for e in t[last + 2 + len(g["obs"]):]]
+    return reads, work, keys
+
+
+def cut_scipy(t, g, n_ind):
+    """Scalings read on the model's state, then per individual the activity of put_individual_parameters and of the optimiser
+    (maximal runs of operations on that individual's clone)."""
+    pos = 3
+    scal = []
+    while pos < len(t) and t[pos][0] == 0 and t[pos][1] == 0:
+        scal.append(t[pos][2])
+        pos += 1
+    put, pat = [], []
+    for j in range(n_ind):
+        pos += 2 + len(g["obs"])
+        w = []
+        while pos < len(t) and (t[pos][0] == 6 or (t[pos][1] == j + 1 and t[pos][0] not in (3, 7, 8))):
+            w.append(t[pos])
+            pos += 1
+        put.append(w)
+    for j in range(n_ind):
+        w = []
+        while pos < len(t) and (t[pos][0] == 6 or (t[pos][1] == j + 1 and t[pos][0] not in (3, 7, 8))):
+            w.append(t[pos])
+            pos += 1
+        pat.append(w)
+    return scal, put, pat
+
+
 def record_call(model, op, kind):
     from harness.recorder import Recorder
     built, _ = build_inputs(model, op, kind)
@@ -968,6 +1015,13 @@ def trace_tie(run: Run, thorough: bool, src_ok: bool = False):
                 if not (isinstance(res, tuple) and res and res[0] == "exc"):
                     try:
                         t = encode_call(ev, var_ix)
+                        if src_ok:
+                            g = model_groups(model, var_ix)
+                            scal, put, pat = cut_scipy(t, g, 2)
+                            g["scal"] = scal
+                            si = coq_sinst(var_ix, g, 2, work={"put_individual_parameters": put, "patient": pat})
+                            cases["scipy_src"].append(f"({si}, {shape}, {coq_trace(t)})")
+                            meta["scipy_src"].append(dict(kind=kind, history=hist, op=op, trace=t))
                         cases["scipy"].append(f"({anc_l}, {coq_nats(kept)}, {coq_nats(dvars)}, {coq_nats(ivars)}, {shape}, 2, {coq_trace(t)})")
                         meta["scipy"].append(dict(kind=kind, history=hist, op=op, trace=t,
                                                   ind_set=all(model.state._values[n] is not None for n in names if var_ix[n] in ivars)))
@@ -986,6 +1040,12 @@ def trace_tie(run: Run, thorough: bool, src_ok: bool = False):
                         continue
                     try:
                         t = encode_call(ev, var_ix)
+                        if src_ok:
+                            g = model_groups(model, var_ix)
+                            reads, work, keys = cut_mcmc(t, g, var_ix)
+                            si = coq_sinst(var_ix, g, 3, keys={"pyt_individual_parameters": [keys]}, reads=reads, work={"sampling": [work]})
+                            cases["mcmc_src"].append(f"({si}, {shape}, {coq_trace(t)})")
+                            meta["mcmc_src"].append(dict(kind=kind, history=hist, op=op, trace=t))
                         cases["mcmc"].append(f"({anc_l}, {coq_nats(kept)}, {coq_nats(dvars)}, {coq_nats(ivars)}, {shape}, {coq_trace(t)})")
                         meta["mcmc"].append(dict(kind=kind, history=hist, op=op, trace=t))
                     except EncodeError as e:
@@ -999,7 +1059,8 @@ def trace_tie(run: Run, thorough: bool, src_ok: bool = False):
               ("mcmc", "list (list nat) * list nat * list nat * list nat * list (option unit) * list rop", "check_mcmc_call"),
               ("scipy", "list (list nat) * list nat * list nat * list nat * list (option unit) * nat * list rop", "check_scipy_call")]
     if src_ok:
-        checks += [("estimate_src", "bool * " + SRC_CASE, "check_estimate_src")]
+        checks += [("estimate_src", "bool * " + SRC_CASE, "check_estimate_src"), ("mcmc_src", SRC_CASE, "check_mcmc_src"),
+                   ("scipy_src", SRC_CASE, "check_scipy_src")]
     for name, ty, chk in checks:
         header = SRC_HEADER if name.endswith("_src") else TIE_HEADER
         if not cases[name]:
